@@ -1288,6 +1288,8 @@ var trackedFns = []tracked{
 	{"demux.go", "Demux", "Stop"},
 	{"demux.go", "Demux", "newConnLocked"},
 	{"channel.go", "", "NewGoatOverChannel"},
+	{"websocket.go", "goatOverWebsocket", "Read"},
+	{"websocket.go", "goatOverWebsocket", "Write"},
 	{"http.go", "GoatOverHttp", "ServeHTTP"},
 	{"http.go", "GoatOverHttp", "connectionCleaner"},
 	{"http.go", "GoatOverHttp", "retrieve"},
